@@ -169,6 +169,12 @@ def run(chk, facts_dir, tier):
     sk = prog.bodies.get(MGR + "admin_skip_event::{closure#0}")
     # (the admin override is not part of the property; it is only held to 'no callers' above)
 
+    # ---------------- R8.6 role binding of the quorum inputs
+    chk.rule("R8.6", "ROLE BINDING: every call that passes a replication factor, a required quorum or a confirmation count binds it to the parameter of that role: "
+                     "`replication_factor` receives the configured factor itself (never rf/2+1, which the callee would halve again), `required_quorum` receives rf/2+1, "
+                     "`confirmation_count` is never computed from either")
+    n86 = quorum.check_role_args(chk, prog, "R8.6")
+    chk.floor("R8.6", n86, 6)
     # ---------------- R8.4
     pb = prog.body(MGR + "persist_bucket_state::{closure#0}")
     chk.analysed(pb.path)
@@ -257,6 +263,11 @@ def run(chk, facts_dir, tier):
     iev = Ev(prog, ib)
     rp = [(bi, t) for bi, t in ib.calls() if (ib.callee_decl(t) or "") == "sierradb::database::Database::read_partition"]
     up = [(bi, t) for bi, t in ib.calls() if (ib.callee_decl(t) or "") == MGR + "update_confirmation"]
+    arg_off = 2
+    if not up:
+        # the replay may feed the partition state directly: PartitionConfirmationState::update_confirmation(version, count, rf)
+        up = [(bi, t) for bi, t in ib.calls() if (ib.callee_decl(t) or "") == PCS_UPDATE]
+        arg_off = 1
     ld = [(bi, t) for bi, t in ib.calls() if (ib.callee_decl(t) or "") == MGR + "load_bucket_state"]
     if not rp or not up or not ld:
         chk.fail("R8.5", MGR + "initialize", "replay-missing", "initialize no longer loads the persisted state and replays the partition log through update_confirmation "
@@ -268,8 +279,8 @@ def run(chk, facts_dir, tier):
             chk.ok("R8.5", "replay starts at the loaded watermark", ib.where(rp[0][1]["line"]))
         else:
             chk.fail("R8.5", MGR + "initialize", "replay-start", "the replay does not start at the loaded watermark (start = %s)" % show(start)[:120], ib, rp[0][1]["line"])
-        ver = iev.operand(up[0][1]["args"][2], (up[0][0], "T"))
-        cnt = iev.operand(up[0][1]["args"][3], (up[0][0], "T"))
+        ver = iev.operand(up[0][1]["args"][arg_off], (up[0][0], "T"))
+        cnt = iev.operand(up[0][1]["args"][arg_off + 1], (up[0][0], "T"))
         base, off = linear(ver)
         if c07.is_x_leaf(strip(base)) and off == 1 and _is_rec_count(cnt):
             chk.ok("R8.5", "replay feeds update_confirmation(seq + 1, event.confirmation_count)", ib.where(up[0][1]["line"]))
